@@ -185,7 +185,8 @@ def plan(tier, seed, hb, runner):
 
 
 def report(res, thm, mism, stats, contracts, known, bounds):
-    spec_m = [m for m in mism if m["kind"] == "spec"] + [{"kind": "spec", "case": c["case"], "impl": c["detail"], "expected": "(harness oracle: round trip differs)"} for c in contracts]
+    spec_m = [m for m in mism if m["kind"] == "spec"] + [{"kind": "spec", "case": c["case"], "impl": c["detail"].split(" expected ")[0].replace("impl ", "", 1),
+                                                          "expected": c["detail"].split(" expected ")[-1]} for c in contracts]
     model_m = [m for m in mism if m["kind"] == "model"]
     other_m = [m for m in mism if m["kind"] not in ("spec", "model")]
     if spec_m:
